@@ -88,6 +88,15 @@ func runC14(c *sim.Ctx) *sim.Violation {
 			f, _ := ref.Frame(byte(t.Int(16)), raw, nil) // type 0 with data
 			return f
 		}
+		if t.Bool(1, 8) {
+			// a CONNECT that announces another protocol name/version (the library
+			// accepts any): decoding it must not disturb what NewConnect() hands out
+			a := gen.Packet(t, gen.Cfg{Spec: true, NoHuge: true, Types: []byte{ref.Connect}})
+			a.ProtoName = [][]byte{[]byte("mqtt"), []byte("MQIs"), []byte("M"), []byte("MQIsdp"), {}}[t.Int(5)]
+			a.ProtoVer = []byte{5, 4, 3}[t.Int(3)]
+			f, _ := ref.Encode(a)
+			return f
+		}
 		f, _ := ref.Encode(gen.Packet(t, cfg))
 		return f
 	}
@@ -156,6 +165,15 @@ func runC14(c *sim.Ctx) *sim.Violation {
 		e := &poolEntry{p: p, how: "constructed " + a.TypeName()}
 		e.canon, e.deep = snapshot(p)
 		pool = append(pool, e)
+		if t.Bool(1, 3) {
+			// a twin built from the same arguments: the two packets were handed
+			// the same byte slices (password, auth data, correlation data, payload)
+			if p2, _, err := buildGuard(a, nil); err == nil {
+				e2 := &poolEntry{p: p2, how: "constructed twin (same setter arguments) " + a.TypeName()}
+				e2.canon, e2.deep = snapshot(p2)
+				pool = append(pool, e2)
+			}
+		}
 	}
 	n0 := 2 + t.Int(4)
 	for i := 0; i < n0; i++ {
@@ -176,7 +194,27 @@ func runC14(c *sim.Ctx) *sim.Violation {
 	for s := 0; s < steps && len(pool) > 0; s++ {
 		touched := -1
 		what := ""
-		switch t.Pick(3, 3, 3, 3) {
+		switch t.Pick(3, 3, 3, 3, 3) {
+		case 4:
+			// receiver reuse: decode a frame of the same type into a packet that
+			// is already in use; nothing is demanded of the receiver, only that
+			// every OTHER packet stays as it was
+			i := t.Int(len(pool))
+			e := pool[i]
+			typ := drv.TypeOf(e.p)
+			if typ >= 1 && typ <= 15 {
+				a := gen.Packet(t, gen.Cfg{Spec: true, NoHuge: true, Types: []byte{typ}})
+				if typ == ref.Connect && t.Bool(1, 2) {
+					a.ProtoName = [][]byte{[]byte("mqtt"), []byte("MQIs"), []byte("M")}[t.Int(3)]
+				}
+				f, _ := ref.Encode(a)
+				_, body, _, _ := ref.SplitFrame(f)
+				buf := append([]byte{}, body...)
+				sim.Guard(func() { e.p.UnmarshalBinary(buf) })
+				touched = i
+				what = fmt.Sprintf("decode a %s frame into existing #%d", typeName(typ), i)
+				c.Count("probe.decode-into-a-packet-already-in-use")
+			}
 		case 0:
 			if v := addDecoded([]string{"ReadPacket", "UnmarshalBinary"}[t.Int(2)]); v != nil {
 				return v
